@@ -168,7 +168,13 @@ class Eval:
         if op == "exp" and len(t) == 2:
             return self.exp(self.tangent(t[1]))
         if op == "ite":
-            c = self.boolean(t[1])
+            try:
+                c = self.boolean(t[1])
+            except Unknown:
+                a, b = self.group(t[2]), self.group(t[3])      # data-dependent choice: fine when both arms agree
+                if a == b:
+                    return a
+                raise Unknown("data-dependent choice between  %s  and  %s" % (show(a), show(b)))
             return self.group(t[2] if c else t[3])
         raise Unknown("group term (%s ...)" % op)
 
